@@ -9,6 +9,28 @@
 From Sci Require Export Snap.Model_C10 Snap.Spec_C10.
 Local Open Scope string_scope. Local Open Scope N_scope.
 
+(** frequent strings, named so that case files elaborate quickly *)
+Definition S_pssid : string := "pssid".
+Definition S_exp : string := "exp".
+Definition S_jti : string := "jti".
+Definition S_ver : string := "ver".
+Definition S_iss : string := "iss".
+Definition S_aud : string := "aud".
+Definition S_nbf : string := "nbf".
+Definition S_iat : string := "iat".
+Definition S_sub : string := "sub".
+Definition S_uuid0 : string := "ef16640f-0fa9-4360-be74-dbeec7ab4f9a".
+Definition S_pssid1 : string := "ABI-RWfomxLTpFZCZhQXQAA".
+Definition S_ssr : string := "ssr".
+Definition S_snap : string := "snap".
+Definition S_jti0 : string := "jti-0".
+Definition S_jti1 : string := "jti-1".
+Definition S_JWT : string := "JWT".
+Definition S_k1 : string := "k1".
+Definition S_k0 : string := "k0".
+Definition S_other : string := "other".
+Definition S_num : string := "1900000000".
+
 Record tcase := mkTCase {
   tc_now : N;                       (* unix seconds when the verifier was called *)
   tc_header : option raw_header;
